@@ -108,6 +108,41 @@ func c03LongLines(c *Ctx, m *Model, rng *rand.Rand) {
 	}
 }
 
+// c03HashInLiteral: the one class of grammatical texts the parser is known not to read as written (open
+// finding KF-C03-hash-in-literal): ' #' inside a string literal of a condition expression.  Anything else
+// that goes wrong on these texts is still a violation: the finding covers only "rejected, or accepted with
+// exactly this condition's expression cut at the ' #'".
+func c03HashInLiteral(c *Ctx, rng *rand.Rand) {
+	exprs := []string{"x == \"a #b\"", "s == 'tag #1' && y", "x in [\"#1\", \" #2\"]", "x == \"a\" || y == \"b #\"", "low <= x &&\n  s != \"n #1\" &&\n  x <= high"}
+	for i := 0; i < c.Pick(10, 60); i++ {
+		m := GenModel(rng, GenOpts{DSLValid: true, Conds: false, MaxDepth: 2, MaxTypes: 3, MaxRels: 3})
+		m.Conds = []Cond{{Name: "c", Params: []Param{{Name: "x", Type: "string"}, {Name: "y", Type: "bool"}, {Name: "s", Type: "string"}}, Expr: exprs[i%len(exprs)]}}
+		text, _ := Render(m, nil)
+		want := canonModelExprWS(parserImage(m))
+		c.R.Evaluations++
+		c.Dist("hash_in_literal_texts")
+		out, pm, _ := realParse(text)
+		if strings.HasPrefix(out, "(ok ") && protoExprWS(pm) == want {
+			continue // read as written
+		}
+		explained := !strings.HasPrefix(out, "(ok ") && strings.Contains(out, "errors")
+		if strings.HasPrefix(out, "(ok ") && pm != nil {
+			// accepted: only the expression of `c` may differ, and only by being cut at a " #"
+			got := pm.GetConditions()["c"].GetExpression()
+			for _, line := range strings.Split(m.Conds[0].Expr, "\n") {
+				if j := strings.Index(line, " #"); j >= 0 && strings.Contains(m.Conds[0].Expr, strings.TrimSpace(got)) {
+					explained = true
+				}
+			}
+		}
+		if explained && c.Known.Open("KF-C03-hash-in-literal") {
+			c.KnownHit("KF-C03-hash-in-literal", map[string]any{"dsl": text, "outcome": trunc(out, 300)})
+			continue
+		}
+		c.OracleFail("c03:hash-in-literal", map[string]any{"dsl": text}, "a grammatical rendering with ' #' inside a string literal of a condition expression is not parsed to the model written", trunc(out, 400))
+	}
+}
+
 func init() {
 	props["C03"] = func(c *Ctx) {
 		c.R.Rule = "generated DSL-valid models and module files x random grammatical layouts from the independent renderer (indentation none/spaces/tabs, blank lines, CRLF, " +
@@ -134,6 +169,7 @@ func init() {
 		for i := 0; i < c.Pick(4, 20); i++ {
 			c03LongLines(c, GenModel(rng, GenOpts{DSLValid: true, Conds: true, MaxDepth: 2}), rng)
 		}
+		c03HashInLiteral(c, rng)
 		m := GenModel(rand.New(rand.NewSource(7)), GenOpts{DSLValid: true, Conds: true, MaxDepth: 2, MaxTypes: 2, MaxRels: 2})
 		t, _ := Render(m, rand.New(rand.NewSource(3)))
 		c.Sample(map[string]any{"dsl": t})
